@@ -17,8 +17,12 @@
   * `signals_match_changes`   add/remove/update/store-remove signals are sent exactly for the corresponding changes
                               (or a refresh signal covers a wholesale change); `update_is_announced`
   * `never_crashes`           no KeyError/IndexError/ValueError is raised from inside the view
+  * `sorted_list_is_stable_sort`, `refilter_is_stable_sort_of_store`, `set_order_is_stable_sort_of_view`,
+    `view_is_sort_when_keys_distinct`   the refinement to "filter the store, then stable sort": exact after a re-filter
+                              / re-order, and exact always when keys are pairwise different (ties otherwise keep the
+                              order of insertion, which depends on the history)
 -/
-import MitmVerif.Lemmas.C43d
+import MitmVerif.Lemmas.C43e
 set_option linter.unusedSectionVars false
 set_option linter.unusedSimpArgs false
 set_option linter.unusedVariables false
@@ -308,6 +312,78 @@ theorem update_is_announced (ops : List Op) (f : Nat) :
         .vupd f ∈ (step (run ops) (.setval f)).trace) :=
   ⟨fun a => step_update_announced (good_run ops) f a, step_setval_announced (good_run ops) f⟩
 
+/-! ### refinement: the sorted list against "filter, then stable sort" -/
+
+/-- **the sorted list is a stable sort**: inserting the elements of `l` one after the other at `bisect_right` of their
+    key (`insertAll`, the model of `SortedListWithKey.add`/`update`) yields a permutation of `l` that is sorted by the
+    key and in which elements with equal keys keep the order they had in `l`. -/
+theorem sorted_list_is_stable_sort (k : Nat → Nat) (l : List Nat) :
+    (insertAll k l).Perm l ∧ (insertAll k l).Pairwise (fun a b => k a ≤ k b) ∧
+    ∀ c, (insertAll k l).filter (fun y => decide (k y = c)) = l.filter (fun y => decide (k y = c)) :=
+  ⟨insertAll_perm k l, insertAll_sorted k l, fun c => insertAll_stable k c l⟩
+
+/-- **a re-filter is exactly "filter the store, then stable sort"**: after any history, right after `set_filter`,
+    `toggle_marked` or `clear_not_marked` the underlying list equals the stable sort, by the current keys of the
+    selected order, of the stored flows (in store order) that match. -/
+theorem refilter_is_stable_sort_of_store (ops : List Op) (op : Op)
+    (hop : (∃ k, op = .setFilter k) ∨ op = .toggleMarked ∨ op = .clearUnmarked) :
+    let s' := step (run ops) op
+    s'.view = insertAll (gen s') (s'.store.filter (fun g => visible s' g)) := by
+  intro s'
+  have h : Good (run ops) (stale ops) := good_run ops
+  let s0 : VS := { (run ops) with trace := [], err := false }
+  rcases hop with ⟨k, hk⟩ | hk | hk
+  · subst hk
+    exact refilter_view (s := { s0 with filt := k }) h.core.storeNodup
+  · subst hk
+    exact refilter_view (s := { s0 with showMarked := !s0.showMarked }) h.core.storeNodup
+  · subst hk
+    exact refilter_view (s := { s0 with store := s0.store.filter (fun f => (s0.attrs f).marked) })
+      (h.core.storeNodup.filter _)
+
+/-- **a change of order is exactly a stable re-sort**: the new list is the stable sort of the old list by the current
+    keys of the new order. -/
+theorem set_order_is_stable_sort_of_view (ops : List Op) (sl : Nat) (hsl : 1 ≤ sl ∧ sl ≤ 4) :
+    let s' := step (run ops) (.setOrder sl)
+    s'.view = insertAll (gen s') (run ops).view := by
+  intro s'
+  have : s' = opSetOrder { (run ops) with trace := [], err := false } sl := by
+    show apply _ (.setOrder sl) = _
+    simp only [apply, hsl, and_self, if_true]
+  rw [this]
+  exact setOrder_view sl
+
+/-- **with pairwise different keys the list is THE sorted filter**: when no unreported change is pending and the
+    matching stored flows have pairwise different keys, `list(view)` is exactly the sort of the filtered store
+    (reversed when requested) — whatever the history was. -/
+theorem view_is_sort_when_keys_distinct (ops : List Op) (hcur : stale ops = [])
+    (hinj : ∀ a b, a ∈ (run ops).store → b ∈ (run ops).store → visible (run ops) a = true → visible (run ops) b = true →
+      gen (run ops) a = gen (run ops) b → a = b) :
+    let s := run ops
+    let sorted := insertAll (gen s) (s.store.filter (fun g => visible s g))
+    shown s = if s.reversed then sorted.reverse else sorted := by
+  intro s sorted
+  have hv := view_eq_sorted_filter_current ops hcur
+  have h : Good s (stale ops) := good_run ops
+  have hperm : s.view.Perm (s.store.filter (fun g => visible s g)) := by
+    have := hv.1
+    unfold shown at this
+    split at this
+    · exact (List.reverse_perm _).symm.trans this
+    · exact this
+  have hsort : SortedBy (gen s) s.view := by
+    have := sorted_current h
+    rw [filter_all hcur] at this
+    exact this
+  have heq : s.view = sorted := by
+    apply sorted_perm_unique _ hsort (insertAll_sorted _ _) (hperm.trans (insertAll_perm _ _).symm)
+    intro a b ha hb hab
+    have ha' := List.mem_filter.mp (hperm.mem_iff.mp ha)
+    have hb' := List.mem_filter.mp (hperm.mem_iff.mp hb)
+    exact hinj a b ha'.1 hb'.1 ha'.2 hb'.2 hab
+  unfold shown
+  rw [heq]
+
 /-! ### the model is not vacuous: the two recorded defect scenarios, now correct -/
 
 private def aU : Attr := ⟨1, 0, 0, 10, false, [false]⟩      -- unmarked, size 10
@@ -328,6 +404,12 @@ example : (run [.setOrder 4, .add 0 aU, .add 1 aM, .focus 0, .mutate 0 aBig, .re
 example : (run [.setOrder 4, .add 0 aU, .add 1 aM, .focus 0, .mutate 0 aBig, .remove 0]).trace.contains (.vrm 0 0) = true := by decide
 example : stale [.add 0 aU, .mutate 0 aBig, .add 1 aM] = [0] := by decide
 example : stale [.add 0 aU, .mutate 0 aBig, .update 0 aBig] = [] := by decide
+/-- ties keep store order after a re-filter; an update that moves a key away and back re-inserts behind its equals -/
+private def aT : Attr := ⟨1, 0, 0, 10, false, [true]⟩
+private def aT2 : Attr := ⟨2, 0, 0, 10, false, [true]⟩
+example : shown (run [.add 0 aT, .add 1 aT, .setFilter 0]) = [0, 1] := by decide
+example : shown (run [.add 0 aT, .add 1 aT, .update 0 aT2, .update 0 aT]) = [1, 0] := by decide
+example : shown (run [.add 0 aT, .add 1 aT, .update 0 aT2, .update 0 aT, .setFilter 0]) = [0, 1] := by decide
 /-- the focus follows removals -/
 example : (run [.add 0 aU, .add 1 aM, .remove 1]).focus = some 0 := by decide
 example : (run [.add 0 aU, .remove 0]).focus = none := by decide
